@@ -145,6 +145,39 @@ impl Coll for Types {
     }
 }
 
+/// the type collection again, every type carrying a debug name given after it was interned (the
+/// name is not part of a type's identity: interning, deletion and re-adding must not see it)
+struct TypesNamed(Types);
+impl Coll for TypesNamed {
+    const NAME: &'static str = "types-named";
+    const KIND: &'static str = "set";
+    const HAS_FIND: bool = true;
+    fn new() -> Self {
+        TypesNamed(Types::new())
+    }
+    fn add(&mut self, v: u64) -> usize {
+        let ix = self.0.add(v);
+        let id = self.0.ids[ix].unwrap();
+        self.0.m.types.get_mut(id).name = Some(format!("t{}", v));
+        ix
+    }
+    fn known(&self) -> usize {
+        self.0.known()
+    }
+    fn del(&mut self, i: usize) {
+        self.0.del(i)
+    }
+    fn idx(&self, i: usize) -> u64 {
+        self.0.idx(i)
+    }
+    fn iter(&mut self) -> Vec<(usize, u64)> {
+        self.0.iter()
+    }
+    fn find(&self, v: u64) -> Option<usize> {
+        self.0.find(v)
+    }
+}
+
 macro_rules! plain_coll {
     (@len $s:ident, $field:ident, true) => { $s.m.memories.len() };
     (@len $s:ident, $field:ident, false) => { unreachable!() };
@@ -565,6 +598,7 @@ pub fn main(seed: u64, tier: &str, only: Option<&str>) {
         macro_rules! go { ($t:ty) => { one::<$t>("replay", ops.clone(), &mut seen, &mut st) }; }
         match coll {
             "types" => go!(Types),
+            "types-named" => go!(TypesNamed),
             "memories" => go!(Memories),
             "tables" => go!(Tables),
             "globals" => go!(Globals),
@@ -580,6 +614,7 @@ pub fn main(seed: u64, tier: &str, only: Option<&str>) {
     }
     let (n, maxlen, enum_len) = if tier == "thorough" { (6000, 60, 5) } else { (250, 40, 3) };
     suite::<Types>(seed, n * 2, maxlen, enum_len, &mut seen);
+    suite::<TypesNamed>(seed ^ 0x7a, n, maxlen, enum_len, &mut seen);
     suite::<Memories>(seed, n, maxlen, enum_len, &mut seen);
     suite::<Tables>(seed, n, maxlen, enum_len.min(3), &mut seen);
     suite::<Globals>(seed, n, maxlen, enum_len.min(3), &mut seen);
